@@ -8,7 +8,7 @@ from plasTeX import Command, Environment
 from plasTeX import DimenCommand, GlueCommand
 
 
-class TextBoxCommand(Command):
+class TextBoxCommand(BoxCommand):
 
     class width(DimenCommand):
         value = DimenCommand.new(0)
@@ -29,7 +29,7 @@ class mbox(BoxCommand):
 class makebox(TextBoxCommand):
     args = '[ width:dimen ] [ pos:str ] self'
 
-class fbox(Command):
+class fbox(BoxCommand):
     args = 'self'
 
 class framebox(TextBoxCommand):
@@ -50,7 +50,7 @@ class lrbox(Environment):
 class usebox(Command):
     args = 'name:cs'
 
-class parbox(Command):
+class parbox(BoxCommand):
     args = '[ pos:str ] width:dimen self'
 
 class minipage(Environment):
